@@ -138,6 +138,7 @@ theorem closed_isEdge {h : Net} {m : Nat} (hc : downClosed h m = true) {p : PyId
 
 theorem specSED_closed {h : Net} {m : Nat} (hc : downClosed h m = true) (x : Bool) : specSED h m x = 0 := by
   unfold specSED
+  dsimp only
   rw [List.length_eq_zero_iff, List.filter_eq_nil_iff]
   intro t ht
   simp only [Bool.and_eq_true, decide_eq_true_eq, List.any_eq_true, Bool.not_eq_true', not_and,
